@@ -178,6 +178,28 @@ def _poly(case, ctx, g):
     ref = torch.tensor([sum(float(c) * _moment(i, a, cc)[0] for i, c in enumerate(coef)) for a, cc in zip(mf, vf)])
     sc = torch.tensor([sum(abs(float(c)) * _moment(i, a, cc)[1] for i, c in enumerate(coef)) for a, cc in zip(mf, vf)])
     ctx.expect("poly_exact", bool(((got - ref).abs() <= sc * 1e-10 + 1e-300).all()), f"random polynomial of degree {2*nl-1}", degree=2 * nl - 1, num_locs=nl)
+    # dtype / device conversions of the rule object keep the rule (n nodes, same exactness), also outside the settings block
+    import copy
+
+    for conv in ("double", "to_float64", "float_roundtrip"):
+        qc = copy.deepcopy(q)
+        qc = qc.double() if conv == "double" else (qc.to(torch.float64) if conv == "to_float64" else qc.float().double())
+        ctx.expect("conversion_keeps_rule", qc.locations.numel() == nl and qc.weights.numel() == nl, f"{conv}: {qc.locations.numel()} nodes after conversion of a {nl}-node rule", conv=conv, num_locs=nl)
+        if conv != "float_roundtrip" and qc.locations.numel() == nl:
+            kk = 2 * nl - 2 if nl > 1 else 0
+            got = qc(lambda x: x**kk, dist).reshape(-1)
+            ref = torch.tensor([_moment(kk, a, c)[0] for a, c in zip(mf, vf)])
+            sc = torch.tensor([_moment(kk, a, c)[1] for a, c in zip(mf, vf)])
+            ctx.expect("conversion_keeps_rule", bool(((got - ref).abs() <= sc * 1e-10 + 1e-300).all()), f"{conv}: degree {kk} no longer exact after conversion", conv=conv, num_locs=nl)
+    # single precision inputs (float32 mean / variance, small variances): central moments to float32 accuracy
+    m32 = m.float()
+    v32 = (v.float() * 0 + 10.0 ** (-6 + 3 * torch.rand(v.shape, generator=g, dtype=torch.float64))).float()
+    d32 = torch.distributions.Normal(m32, v32.sqrt())
+    if nl >= 2:
+        var32 = q(lambda x: (x - m32) ** 2, d32)
+        ctx.expect("float32_central_moment", bool(((var32.double() - v32.double()).abs() <= 2e-5 * v32.double()).all()), f"float32: E(x-m)^2 deviates from v by {float(((var32.double() - v32.double()).abs() / v32.double()).max()):.2e} relative (v in 1e-6..1e-3)", num_locs=nl)
+        mean32 = q(lambda x: x, d32)
+        ctx.expect("float32_central_moment", bool(((mean32.double() - m32.double()).abs() <= 1e-5 * (m32.double().abs() + v32.double().sqrt())).all()), "float32: E x deviates from m", num_locs=nl)
     # guard against a vacuous oracle: degree 2n is not integrated exactly
     k = 2 * nl
     got = q(lambda x: (x - m) ** k, dist).reshape(-1)
